@@ -35,7 +35,12 @@ def call(w, e, st):
             target = ("super", chain[1])
         elif chain and w._is_module_level(chain[0], st):
             r, rest = w.prog.resolve_dotted(w.mod, chain)
-            target = ("resolved", r, rest)
+            if r[0] in ("class", "const") and len(rest) >= 2:
+                # Class.MEMBER.method(...) / CONST.field.method(...): a method call on a value
+                recv_node = f.value
+                target = ("method", f.attr)
+            else:
+                target = ("resolved", r, rest)
         else:
             recv_node = f.value
             target = ("method", f.attr)
